@@ -6,6 +6,7 @@ from ..core import AnalysisError, src
 from ..pysym import SymExec, show, subterms
 from ..rules_pyx import N, C, A
 from .. import codec
+from .. import logic
 
 EXPLANATION = (
     'Three structural necessary conditions of the round trip, decided from the code of depccg/cat.py: R5.1 delimiter '
@@ -163,15 +164,11 @@ def r_feature(mod, rep, R='R5.2'):
     tern = unary = False
     for st, ret in codec.returns_of(fp):
         conds = [(c, pol) for c, pol, _ in st.conds]
-        both = [(c, pol) for c, pol in conds if c[0] == 'bool' and c[1] == 'and' and
-                {show(x) for x in c[2]} == {show(('cmp', 'in', C('='), N(p))), show(('cmp', 'in', C(','), N(p)))}]
-        if both and both[0][1]:
+        both_f = ('and', (logic.formula(('cmp', 'in', C('='), N(p))), logic.formula(('cmp', 'in', C(','), N(p)))))
+        if logic.implied(conds, both_f):
             t = ret
-            tern = (t[0] == 'call' and t[1] == N('TernaryFeature') and len(t[2]) == 1 and t[2][0][0] == 'star' and t[2][0][1][0] == 'listcomp'
-                    and t[2][0][1][2][0][0] == ('call', A(N(p), 'split'), (C(','),), ())
-                    and t[2][0][1][1] == ('call', N('tuple'), (('call', A(('elem', t[2][0][1][2][0][0], t[2][0][1][1][2][0][1][1][2]), 'split'), (C('='),), ()),), ())
-                    if False else (t[0] == 'call' and t[1] == N('TernaryFeature') and "split(',')" in show(t).replace('"', "'") and "split('=')" in show(t).replace('"', "'")))
-        elif both and not both[0][1]:
+            tern = t[0] == 'call' and t[1] == N('TernaryFeature') and "split(',')" in show(t).replace('"', "'") and "split('=')" in show(t).replace('"', "'")
+        elif logic.excluded(conds, both_f):
             unary = ret == ('call', N('UnaryFeature'), (N(p),), ())
     rep.check(tern, R, wf, 'feature:parse-ternary', 'text with both separators is split on , and = into a three-part feature', 'Feature.parse does not split on , and = for the three-part form')
     rep.check(unary, R, wf, 'feature:parse-unary', 'any other text becomes a plain feature with that text', 'Feature.parse does not fall back to UnaryFeature(text)')
